@@ -226,7 +226,9 @@ namespace pika::threads::detail {
 
                 if (PIKA_UNLIKELY(!p.second))
                 {
+                    PIKA_VERIF_PRE("el.dec", addfrom);
                     --addfrom->new_tasks_count_.data_;
+                    PIKA_VERIF_POST("el.dec", addfrom, 0, 0);
                     lk.unlock();
                     PIKA_THROW_EXCEPTION(pika::error::out_of_memory, "thread_queue::add_new",
                         "Couldn't add new thread to the thread map");
@@ -236,7 +238,9 @@ namespace pika::threads::detail {
                 ++thread_map_count_;
 
                 // Decrement only after thread_map_count_ has been incremented
+                PIKA_VERIF_PRE("el.dec", addfrom);
                 --addfrom->new_tasks_count_.data_;
+                PIKA_VERIF_POST("el.dec", addfrom, 0, 0);
 
                 // insert the thread into the work-items queue assuming it is
                 // in pending state, thread would go out of scope otherwise
@@ -670,7 +674,9 @@ namespace pika::threads::detail {
 
             // do not execute the work, but register a task description for
             // later thread creation
+            PIKA_VERIF_PRE("el.inc", this);
             ++new_tasks_count_.data_;
+            PIKA_VERIF_POST("el.inc", this, 0, 0);
 
             task_description* td = task_description_alloc_.allocate(1);
 #ifdef PIKA_HAVE_THREAD_QUEUE_WAITTIME
@@ -690,7 +696,9 @@ namespace pika::threads::detail {
             thread_description_ptr trd;
             while (src->work_items_.pop(trd))
             {
+                PIKA_VERIF_PRE("el.dec", src);
                 --src->work_items_count_.data_;
+                PIKA_VERIF_POST("el.dec", src, 0, 0);
 
 #ifdef PIKA_HAVE_THREAD_QUEUE_WAITTIME
                 if (get_maintain_queue_wait_times_enabled())
@@ -703,7 +711,9 @@ namespace pika::threads::detail {
                 }
 #endif
 
+                PIKA_VERIF_PRE("el.inc", this);
                 bool finished = count == ++work_items_count_.data_;
+                PIKA_VERIF_POST("el.inc", this, 0, 0);
                 work_items_.push(trd);
                 if (finished) break;
             }
@@ -725,11 +735,15 @@ namespace pika::threads::detail {
                 }
 #endif
 
+                PIKA_VERIF_PRE("el.inc", this);
                 bool finish = count == ++new_tasks_count_.data_;
+                PIKA_VERIF_POST("el.inc", this, 0, 0);
 
                 // Decrement only after the local new_tasks_count_ has
                 // been incremented
+                PIKA_VERIF_PRE("el.dec", src);
                 --src->new_tasks_count_.data_;
+                PIKA_VERIF_POST("el.dec", src, 0, 0);
 
                 if (new_tasks_.push(task))
                 {
@@ -755,7 +769,9 @@ namespace pika::threads::detail {
             thread_description_ptr tdesc;
             if (0 != work_items_count && work_items_.pop(tdesc, steal))
             {
+                PIKA_VERIF_PRE("el.dec", this);
                 --work_items_count_.data_;
+                PIKA_VERIF_POST("el.dec", this, 0, 0);
 
                 if (get_maintain_queue_wait_times_enabled())
                 {
@@ -775,7 +791,9 @@ namespace pika::threads::detail {
             if (0 != work_items_count && work_items_.pop(next_thrd, steal))
             {
                 thrd.reset(next_thrd, false);    // do not addref!
+                PIKA_VERIF_PRE("el.dec", this);
                 --work_items_count_.data_;
+                PIKA_VERIF_POST("el.dec", this, 0, 0);
                 return true;
             }
 #endif
@@ -786,7 +804,9 @@ namespace pika::threads::detail {
         void schedule_thread(threads::detail::thread_id_ref_type thrd, bool other_end = false)
         {
             PIKA_VERIF_POST("q.push", threads::detail::get_thread_id_data(thrd), threads::detail::get_thread_id_data(thrd)->verif_word(), 1);
+            PIKA_VERIF_PRE("el.inc", this);
             ++work_items_count_.data_;
+            PIKA_VERIF_POST("el.inc", this, 0, 0);
 #ifdef PIKA_HAVE_THREAD_QUEUE_WAITTIME
             using namespace std::chrono;
             work_items_.push(new thread_description{std::move(thrd),
